@@ -142,3 +142,247 @@ Theorem C02_lib_src_hasher_new_internal : forall key flags p,
   lib_ChunkState_platform (lib_Hasher_chunk_state (lib_Hasher_new_internal key flags p)) = p.
 Proof. exact lib_Hasher_new_internal_eq. Qed.
 Print Assumptions C02_lib_src_hasher_new_internal.
+
+(* ---- the model against the source text: the loop-carrying core of the incremental hasher -----------------
+   gen/GenLibLoops.v is the text of ChunkState::count / fill_buf / output / update and Hasher::merge_cv_stack /
+   push_cv / reset / final_output / finalize / finalize_xof / count (src/lib.rs), translated statement by statement
+   (tools/gen_coq.py gen_lib_loops): every `while c { body }` is a Fixpoint on explicit fuel (condition first,
+   OutOfFuel when the condition holds and the fuel is exhausted, then the body's statements in source order), slices
+   are firstn / skipn with their bounds checks, ArrayVec push / pop().unwrap() / index / clear are the list operations
+   of Base/ArrayVec.v (the vector in index order) with the Panic codes the models use, the debug_assert! / assert_eq!
+   macros carry the models' codes, and the functions that are called but not translated there (parent_node_output,
+   Output::chaining_value, Output::root_hash, OutputReader::new) are explicit parameters, instantiated below with the
+   models' (m_parent_node_output = the specification's parent_output, m_Output_chaining_value = out_chaining_value,
+   m_Output_root_hash = out_root_hash; parent_node_output / chaining_value / root_hash themselves are tied to these
+   by the C02_lib_src_* theorems above).  Each translated function EQUALS the hand-written model function
+   (Model/RsChunk.v, Model/RsHasher.v) on every argument and every fuel value, including the Panic and OutOfFuel
+   results.  Hypotheses are type invariants of the source only (a u8 field is below 2^8 / 2^64, an ArrayVec never
+   holds more than its capacity).  A translated record carries the platform, the models take it as an argument:
+   lib_of_cs / lib_of_out / lib_of_hasher build the translated record from the model's and the platform; the
+   ArrayVec is the model's stack (top first) reversed.  Proofs in Proofs/GenLibLoopsP.v. *)
+From V Require Import Base.MachInt Base.ArrayVec gen.GenConsts gen.GenFormulas gen.GenLibLoops Proofs.GenLibLoopsP.
+
+Theorem C02_lib_src_loops_repr_def :
+  (forall p o, lib_of_out p o = lib_Output_mk (o_cv o) (o_block o) (o_blen o) (o_ctr o) (o_flags o) p) /\
+  (forall p c, lib_of_cs p c = lib_ChunkState_mk (cs_cv c) (cs_ctr c) (cs_buf c) (cs_buf_len c) (cs_blocks c) (cs_flags c) p) /\
+  (forall p h, lib_of_hasher p h = lib_Hasher_mk (h_key h) (lib_of_cs p (h_cs h)) (h_init h) (rev (h_stack h))) /\
+  (forall h, hasher_of_lib h = mkHasher (lib_Hasher_key h) (cs_of_lib (lib_Hasher_chunk_state h))
+                                        (lib_Hasher_initial_chunk_counter h) (rev (lib_Hasher_cv_stack h))) /\
+  (forall c, lib_of_cs (lib_ChunkState_platform c) (cs_of_lib c) = c) /\ (forall p c, cs_of_lib (lib_of_cs p c) = c) /\
+  (forall o, lib_of_out (lib_Output_platform o) (out_of_lib o) = o) /\ (forall p o, out_of_lib (lib_of_out p o) = o) /\
+  (forall h, lib_of_hasher (lib_ChunkState_platform (lib_Hasher_chunk_state h)) (hasher_of_lib h) = h) /\
+  (forall p h, hasher_of_lib (lib_of_hasher p h) = h) /\
+  (forall l r key flags p, m_parent_node_output l r key flags p = lib_of_out p (parent_output key flags l r)) /\
+  (forall o, m_Output_chaining_value o = out_chaining_value (lib_Output_platform o) (out_of_lib o)) /\
+  (forall o, m_Output_root_hash o = out_root_hash (lib_Output_platform o) (out_of_lib o)) /\
+  (forall (A B : Type) (f : A -> B) r,
+     GenLibLoopsP.res_map f r = match r with Ok a => Ok (f a) | Panic c => Panic c | OutOfFuel => OutOfFuel end).
+Proof.
+  split; [reflexivity|]. split; [reflexivity|]. split; [reflexivity|]. split; [reflexivity|].
+  split; [exact lib_of_cs_of_lib|]. split; [exact cs_of_lib_of_cs|].
+  split; [exact lib_of_out_of_lib|]. split; [exact out_of_lib_of_out|].
+  split; [exact lib_of_hasher_of_lib|]. split; [exact hasher_of_lib_of_hasher|].
+  split; [reflexivity|]. split; [reflexivity|]. split; reflexivity.
+Qed.
+Print Assumptions C02_lib_src_loops_repr_def.
+
+(* the ArrayVec operations the translation uses *)
+Theorem C02_lib_src_arrayvec_def : forall (A : Type) (cap : N) (v : list A) (x : A) (i : N),
+  av_len v = N.of_nat (length v) /\
+  av_push cap v x = (if av_len v <? cap then Ok (v ++ [x]) else Panic 51) /\
+  av_pop_unwrap (v ++ [x]) = Ok (v, x) /\ av_pop_unwrap (@nil A) = Panic 50 /\
+  av_index v i = match nth_error v (N.to_nat i) with Some y => Ok y | None => Panic 53 end.
+Proof.
+  intros. split; [reflexivity|]. split; [unfold av_push; destruct (av_len v <? cap); reflexivity|].
+  split; [apply av_pop_unwrap_snoc|]. split; reflexivity.
+Qed.
+Print Assumptions C02_lib_src_arrayvec_def.
+
+(* ChunkState *)
+Theorem C02_lib_src_chunk_state_count : forall p c, lib_ChunkState_count (lib_of_cs p c) = cs_count c.
+Proof. exact lib_ChunkState_count_eq. Qed.
+Print Assumptions C02_lib_src_chunk_state_count.
+
+Theorem C02_lib_src_chunk_state_fill_buf : forall p c input, cs_buf_len c < 2 ^ 64 ->
+  lib_ChunkState_fill_buf (lib_of_cs p c) input
+  = GenLibLoopsP.res_map (fun r => (lib_of_cs p (fst r), snd r)) (cs_fill_buf c input).
+Proof. exact fill_buf_eq. Qed.
+Print Assumptions C02_lib_src_chunk_state_fill_buf.
+
+Theorem C02_lib_src_chunk_state_output : forall p c,
+  lib_ChunkState_output (lib_of_cs p c) = Ok (lib_of_out p (cs_output c)).
+Proof. exact output_eq. Qed.
+Print Assumptions C02_lib_src_chunk_state_output.
+
+(* the `while input.len() > BLOCK_LEN` loop, every fuel *)
+Theorem C02_lib_src_chunk_state_update_loop : forall p fuel c input,
+  lib_ChunkState_update_loop1 fuel (lib_of_cs p c) input
+  = GenLibLoopsP.res_map (fun r => (lib_of_cs p (fst r), snd r)) (cs_update_loop fuel p c input).
+Proof. exact update_loop_eq. Qed.
+Print Assumptions C02_lib_src_chunk_state_update_loop.
+
+(* ChunkState::update.  The model computes the fuel of its block loop (S (length input / 64), after the buffered
+   flush); cs_update_with is cs_update with that fuel as a parameter, and equals cs_update as soon as the fuel covers
+   the input.  The translated function equals cs_update_with at every fuel. *)
+Theorem C02_lib_src_cs_update_with_def : forall fuel p cs input,
+  cs_update_with fuel p cs input =
+  ('(cs, input) <-
+    (if 0 <? cs_buf_len cs then
+       '(cs, input) <- cs_fill_buf cs input ;;
+       if negb (nlen input =? 0) then
+         assert! (cs_buf_len cs =? rs_BLOCK_LEN) code 1302 ;;
+         let block_flags := N.lor (cs_flags cs) (cs_start_flag cs) in
+         let cv := p_compress_in_place p (cs_cv cs) (cs_buf cs) rs_BLOCK_LEN (cs_ctr cs) block_flags in
+         blocks <- mi_add 8 (cs_blocks cs) 1 ;;
+         Ok (mkCS cv (cs_ctr cs) zero_block 0 blocks (cs_flags cs), input)
+       else Ok (cs, input)
+     else Ok (cs, input)) ;;
+   '(cs, input) <- cs_update_loop fuel p cs input ;;
+   '(cs, input) <- cs_fill_buf cs input ;;
+   assert! (nlen input =? 0) code 1303 ;;
+   c <- cs_count cs ;;
+   assert! (c <=? rs_CHUNK_LEN) code 1304 ;;
+   Ok cs).
+Proof. reflexivity. Qed.
+Print Assumptions C02_lib_src_cs_update_with_def.
+
+Theorem C02_lib_src_cs_update_with_enough : forall p fuel c input, (length input < 64 * fuel)%nat ->
+  cs_update_with fuel p c input = cs_update p c input.
+Proof. exact cs_update_with_enough. Qed.
+Print Assumptions C02_lib_src_cs_update_with_enough.
+
+Theorem C02_lib_src_chunk_state_update_fuel : forall p fuel c input, cs_buf_len c < 2 ^ 64 ->
+  lib_ChunkState_update fuel (lib_of_cs p c) input = GenLibLoopsP.res_map (lib_of_cs p) (cs_update_with fuel p c input).
+Proof. exact lib_ChunkState_update_eq. Qed.
+Print Assumptions C02_lib_src_chunk_state_update_fuel.
+
+Theorem C02_lib_src_chunk_state_update : forall p fuel c input, cs_buf_len c < 2 ^ 64 -> (length input < 64 * fuel)%nat ->
+  lib_ChunkState_update fuel (lib_of_cs p c) input = GenLibLoopsP.res_map (lib_of_cs p) (cs_update p c input).
+Proof. exact lib_ChunkState_update_model. Qed.
+Print Assumptions C02_lib_src_chunk_state_update.
+
+(* Hasher::merge_cv_stack: the `while self.cv_stack.len() > post_merge_stack_len` loop at every fuel (the model's
+   merge_loop works on the stack alone: set_stack puts it back into the hasher), then the function (the model runs
+   the loop with fuel 64) *)
+Theorem C02_lib_src_merge_loop : forall p cc fuel h st target, N.of_nat (length st) <= rs_cv_stack_cap ->
+  lib_Hasher_merge_cv_stack_loop1 m_parent_node_output m_Output_chaining_value fuel
+    (lib_of_hasher p (mkHasher (h_key h) (h_cs h) (h_init h) st)) cc target
+  = GenLibLoopsP.res_map (fun st' => lib_of_hasher p (mkHasher (h_key h) (h_cs h) (h_init h) st'))
+      (merge_loop fuel p h st target).
+Proof. exact merge_loop_eq. Qed.
+Print Assumptions C02_lib_src_merge_loop.
+
+Theorem C02_lib_src_merge_cv_stack_fuel : forall p fuel h cc, N.of_nat (length (h_stack h)) <= rs_cv_stack_cap ->
+  lib_Hasher_merge_cv_stack m_parent_node_output m_Output_chaining_value fuel (lib_of_hasher p h) cc
+  = GenLibLoopsP.res_map (lib_of_hasher p)
+      (target <- rs_post_merge_len cc (h_init h) ;;
+       st <- merge_loop fuel p h (h_stack h) target ;;
+       Ok (mkHasher (h_key h) (h_cs h) (h_init h) st)).
+Proof. exact lib_Hasher_merge_cv_stack_eq. Qed.
+Print Assumptions C02_lib_src_merge_cv_stack_fuel.
+
+Theorem C02_lib_src_merge_cv_stack : forall p h cc, N.of_nat (length (h_stack h)) <= rs_cv_stack_cap ->
+  lib_Hasher_merge_cv_stack m_parent_node_output m_Output_chaining_value 64 (lib_of_hasher p h) cc
+  = GenLibLoopsP.res_map (lib_of_hasher p) (merge_cv_stack p h cc).
+Proof. intros p h cc H. exact (lib_Hasher_merge_cv_stack_eq p 64 h cc H). Qed.
+Print Assumptions C02_lib_src_merge_cv_stack.
+
+Theorem C02_lib_src_push_cv_fuel : forall p fuel h new_cv cc, N.of_nat (length (h_stack h)) <= rs_cv_stack_cap ->
+  lib_Hasher_push_cv m_parent_node_output m_Output_chaining_value fuel (lib_of_hasher p h) new_cv cc
+  = GenLibLoopsP.res_map (lib_of_hasher p)
+      (h <- (target <- rs_post_merge_len cc (h_init h) ;;
+             st <- merge_loop fuel p h (h_stack h) target ;;
+             Ok (mkHasher (h_key h) (h_cs h) (h_init h) st)) ;;
+       assert! (N.of_nat (length (h_stack h)) <? rs_cv_stack_cap) code 51 ;;
+       Ok (mkHasher (h_key h) (h_cs h) (h_init h) (new_cv :: h_stack h))).
+Proof. exact lib_Hasher_push_cv_eq. Qed.
+Print Assumptions C02_lib_src_push_cv_fuel.
+
+Theorem C02_lib_src_push_cv : forall p h new_cv cc, N.of_nat (length (h_stack h)) <= rs_cv_stack_cap ->
+  lib_Hasher_push_cv m_parent_node_output m_Output_chaining_value 64 (lib_of_hasher p h) new_cv cc
+  = GenLibLoopsP.res_map (lib_of_hasher p) (push_cv p h new_cv cc).
+Proof. intros p h new_cv cc H. exact (lib_Hasher_push_cv_eq p 64 h new_cv cc H). Qed.
+Print Assumptions C02_lib_src_push_cv.
+
+Theorem C02_lib_src_hasher_reset : forall p h, lib_Hasher_reset (lib_of_hasher p h) = lib_of_hasher p (hasher_reset h).
+Proof. exact lib_Hasher_reset_eq. Qed.
+Print Assumptions C02_lib_src_hasher_reset.
+
+(* Hasher::count: the source evaluates (chunk_counter - initial_chunk_counter) * CHUNK_LEN before chunk_state.count(),
+   the model the other way round; for u8 fields chunk_state.count() cannot fail, so the order does not show *)
+Theorem C02_lib_src_hasher_count : forall p h, cs_blocks (h_cs h) < 2 ^ 8 -> cs_buf_len (h_cs h) < 2 ^ 8 ->
+  lib_Hasher_count (lib_of_hasher p h) = hasher_count h.
+Proof. exact lib_Hasher_count_eq. Qed.
+Print Assumptions C02_lib_src_hasher_count.
+
+(* Hasher::final_output.  The `while num_cvs_remaining > 0` loop at every fuel: with l the remaining entries (top
+   first; the ArrayVec is rev l ++ w) it is the model's final_fold over l when the fuel covers l, OutOfFuel otherwise *)
+Theorem C02_lib_src_final_output_loop : forall p h l fuel w o,
+  lib_Hasher_final_output_loop1 m_parent_node_output m_Output_chaining_value fuel
+    (lib_Hasher_mk (h_key h) (lib_of_cs p (h_cs h)) (h_init h) (rev l ++ w)) (lib_of_out p o) (N.of_nat (length l))
+  = if Nat.leb (length l) fuel then Ok (lib_of_out p (final_fold p h o l), 0) else OutOfFuel.
+Proof. exact final_loop_eq. Qed.
+Print Assumptions C02_lib_src_final_output_loop.
+
+(* the function.  One place where the model is shaped differently from the source: with exactly one entry on the
+   stack and an empty chunk state the source's debug_assert!(self.cv_stack.len() >= 2) fires first (code 1406 in the
+   translation), the model goes straight to the index panic that follows in every build (Panic 53); everywhere else
+   the two are equal *)
+Theorem C02_lib_src_final_output : forall p fuel h, (length (h_stack h) <= fuel)%nat ->
+  (forall a, h_stack h = [a] -> cs_count (h_cs h) <> Ok 0) ->
+  lib_Hasher_final_output m_parent_node_output m_Output_chaining_value fuel (lib_of_hasher p h)
+  = GenLibLoopsP.res_map (lib_of_out p) (final_output p h).
+Proof. exact lib_Hasher_final_output_eq. Qed.
+Print Assumptions C02_lib_src_final_output.
+
+Theorem C02_lib_src_final_output_one : forall p fuel h a, h_stack h = [a] -> cs_count (h_cs h) = Ok 0 ->
+  lib_Hasher_final_output m_parent_node_output m_Output_chaining_value fuel (lib_of_hasher p h) = Panic 1406 /\
+  final_output p h = Panic 53.
+Proof. exact lib_Hasher_final_output_one. Qed.
+Print Assumptions C02_lib_src_final_output_one.
+
+Theorem C02_lib_src_finalize : forall p fuel h, (length (h_stack h) <= fuel)%nat ->
+  (forall a, h_stack h = [a] -> cs_count (h_cs h) <> Ok 0) ->
+  lib_Hasher_finalize m_parent_node_output m_Output_chaining_value m_Output_root_hash fuel (lib_of_hasher p h)
+  = hasher_finalize p h.
+Proof. exact lib_Hasher_finalize_eq. Qed.
+Print Assumptions C02_lib_src_finalize.
+
+(* finalize_xof: OutputReader::new is a parameter of the translation; the model's hasher_finalize_output returns the
+   root Output the reader is built from *)
+Theorem C02_lib_src_finalize_xof : forall p fuel h, (length (h_stack h) <= fuel)%nat ->
+  (forall a, h_stack h = [a] -> cs_count (h_cs h) <> Ok 0) ->
+  lib_Hasher_finalize_xof m_parent_node_output m_Output_chaining_value out_of_lib fuel (lib_of_hasher p h)
+  = hasher_finalize_output p h.
+Proof. exact lib_Hasher_finalize_xof_eq. Qed.
+Print Assumptions C02_lib_src_finalize_xof.
+
+(* the same functions with the parameters instantiated by the TRANSLATED parent_node_output / Output::chaining_value of
+   gen/GenLibSmall.v instead of the models' stand-ins: every line is then the source's.  These hold on a PlatformOK
+   platform for hashers of the declared shapes (8-word key and chunk-state cv, 32-byte stack entries). *)
+Theorem C02_lib_src_merge_cv_stack_closed : forall p, PlatformOK p -> forall fuel h cc,
+  N.of_nat (length (h_stack h)) <= rs_cv_stack_cap ->
+  Forall (fun cv => length cv = 32%nat) (h_stack h) -> length (h_key h) = 8%nat ->
+  lib_Hasher_merge_cv_stack lib_parent_node_output lib_Output_chaining_value fuel (lib_of_hasher p h) cc
+  = GenLibLoopsP.res_map (lib_of_hasher p)
+      (target <- rs_post_merge_len cc (h_init h) ;;
+       st <- merge_loop fuel p h (h_stack h) target ;;
+       Ok (mkHasher (h_key h) (h_cs h) (h_init h) st)).
+Proof. exact merge_cv_stack_src. Qed.
+Print Assumptions C02_lib_src_merge_cv_stack_closed.
+
+Theorem C02_lib_src_push_cv_closed : forall p, PlatformOK p -> forall h new_cv cc,
+  N.of_nat (length (h_stack h)) <= rs_cv_stack_cap ->
+  Forall (fun cv => length cv = 32%nat) (h_stack h) -> length (h_key h) = 8%nat ->
+  lib_Hasher_push_cv lib_parent_node_output lib_Output_chaining_value 64 (lib_of_hasher p h) new_cv cc
+  = GenLibLoopsP.res_map (lib_of_hasher p) (push_cv p h new_cv cc).
+Proof. intros p OK h new_cv cc. exact (push_cv_src p OK 64 h new_cv cc). Qed.
+Print Assumptions C02_lib_src_push_cv_closed.
+
+Theorem C02_lib_src_final_output_closed : forall p, PlatformOK p -> forall fuel h, (length (h_stack h) <= fuel)%nat ->
+  (forall a, h_stack h = [a] -> cs_count (h_cs h) <> Ok 0) ->
+  Forall (fun cv => length cv = 32%nat) (h_stack h) -> length (h_key h) = 8%nat -> length (cs_cv (h_cs h)) = 8%nat ->
+  lib_Hasher_final_output lib_parent_node_output lib_Output_chaining_value fuel (lib_of_hasher p h)
+  = GenLibLoopsP.res_map (lib_of_out p) (final_output p h).
+Proof. exact final_output_src. Qed.
+Print Assumptions C02_lib_src_final_output_closed.
